@@ -27,8 +27,13 @@ Init ==
   \/ \E mask \in 0..63 : \E vl \in 2..3 : \E tr \in 0..1 : \E cl \in {1, 4} :
         \/ c = [op |-> "query", text |-> Txt, params |-> ParamsOf(mask, vl, cl), tracing |-> tr]
         \/ c = [op |-> "execute", id |-> <<"rep", 5, 16>>, meta_id |-> <<mask % 2, <<"rep", 9, 16>>>>, params |-> ParamsOf(mask, vl, cl), tracing |-> tr]
-  \/ \E ty \in 0..2 : \E s \in 1..4 : \E o \in 0..3 : \E extra \in 0..1 :
-        c = [op |-> "batch", type |-> ty, stmts |-> Stmts[s], nvalsets |-> Len(Stmts[s]) + extra * (IF s = 1 THEN 1 ELSE 2) - extra * (IF s = 1 THEN 0 ELSE 1),
+  \* a paging state that is present but empty (a server may return one) is still a paging state
+  \/ \E mask \in {8, 9, 24, 40, 56, 63} : \E tr \in 0..1 :
+        \/ c = [op |-> "query", text |-> Txt, params |-> [ParamsOf(mask, 3, 1) EXCEPT !.ps = <<1, << >>>>], tracing |-> tr]
+        \/ c = [op |-> "execute", id |-> <<"rep", 5, 16>>, meta_id |-> <<mask % 2, <<"rep", 9, 16>>>>, params |-> [ParamsOf(mask, 2, 4) EXCEPT !.ps = <<1, << >>>>], tracing |-> tr]
+  \* path: 0 = value lists handed over already serialized; 1 = through the adapter the session uses (BatchValues + one context per statement)
+  \/ \E ty \in 0..2 : \E s \in 1..4 : \E o \in 0..3 : \E extra \in 0..1 : \E path \in 0..1 :
+        c = [op |-> "batch", path |-> path, type |-> ty, stmts |-> Stmts[s], nvalsets |-> Len(Stmts[s]) + extra * (IF s = 1 THEN 1 ELSE 2) - extra * (IF s = 1 THEN 0 ELSE 1),
              cl |-> 6, serial |-> <<o % 2, 8>>, ts |-> <<o \div 2, I(0, <<0, 0, 0, 0, 0, 0, 0, 64>>)>>, tracing |-> 0]
   \/ \E n \in {0, 1, 65535, 65536, 70000} : c = [op |-> "prepare", text |-> <<"rep", 120, n>>, tracing |-> 0]
   \/ \E n \in {0, 1, 65535, 65536} : c = [op |-> "execute", id |-> <<"rep", 5, n>>, meta_id |-> <<0, <<"rep", 9, 0>>>>, params |-> ParamsOf(0, 2, 1), tracing |-> 0]
